@@ -71,7 +71,7 @@ def _run(prog, chk):
         "latest (not before), certificate by identical id.")
     chk.not_decided = ["PKCS#7 / X.509 mathematics inside OpenSSL"]
     chk.rule("C18.structure", "template order and flags; magic first", floor=3)
-    chk.rule("C18.range", "signed range: offset before the signature element, nothing after the signature", floor=6)
+    chk.rule("C18.range", "signed range: offset before the signature element, nothing after the signature", floor=20)
     chk.rule("C18.trust", "PKI verification tables and wiring", floor=25)
     chk.rule("C18.lookup", "lookup decision tables", floor=30)
     K = prog.const
@@ -101,7 +101,8 @@ def _run(prog, chk):
     fg = prog.fn("generateNextTlv", "publicationsfile.c")
     gp, tp = fg.params[0]["n"], fg.params[1]["n"]
     FMT = K("KSI_INVALID_FORMAT")
-    for has_sig, tag, remaining in itertools.product((0, 1), (0x703, 0x704), (20, 0)):
+    # every kind of element: the three sections, the signature itself, and elements the template does not know (short and long tag)
+    for has_sig, tag, remaining in itertools.product((0, 1), (0x701, 0x702, 0x703, 0x704, 0x05, 0x710), (20, 0)):
         def memread(I, p, node, args):
             k = lvalue_key(strip(node["a"][2])["e"], I.fn)
             I.write(p, k + ".hdr_len", 4)
